@@ -186,11 +186,11 @@ def shrink_tree(case):
 
     tree = case["tree"]
     for top, sub in list(tree["d"].items()):
-        if top not in ("root", "pk"):
+        if top != "root" and not (top == "pk" and case.get("flavour") == "PackageLoader"):
             t = copy.deepcopy(tree)
             del t["d"][top]
             yield {**case, "tree": t}
-        if "d" in sub and top != "pk":
+        if "d" in sub and top != "pk" and top in tree["d"]:
             for name in list(sub["d"]):
                 t = copy.deepcopy(tree)
                 del t["d"][top]["d"][name]
@@ -575,7 +575,7 @@ class LoaderStream(Stream):
 class FslStream(LoaderStream):
     name = "fsl"
     kind = "fsl"
-    sizes = (220, 2400)
+    sizes = (180, 2000)
 
     def gen_case(self, rng, i):
         tg = TreeGen(rng)
@@ -623,7 +623,7 @@ PKG_PATHS = ["templates", "templates", ["templates", "more"], ["more", "template
 class PkgStream(LoaderStream):
     name = "pkg"
     kind = "pkg"
-    sizes = (120, 1200)
+    sizes = (100, 1000)
 
     def gen_case(self, rng, i):
         tg = TreeGen(rng)
@@ -840,7 +840,7 @@ class FsPrimStream(Stream):
     def cases(self, ctx):
         rng = ctx.rng_for("fsprim")
         out = []
-        for _ in range(ctx.scale(120, 1200)):
+        for _ in range(ctx.scale(100, 1000)):
             tg = TreeGen(rng)
             tree = tg.tree(links=True)
             root = tree["d"]["root"]
